@@ -59,6 +59,20 @@ fn main() {
                 triage = true;
                 no_evidence = true;
             }
+            "--fuzz-input" => {
+                // judge one input of a fuzz target (a saved corpus unit / slow unit) in this non-sanitised build and say how long it took
+                i += 1;
+                let path = args.get(i).cloned().unwrap_or_else(|| usage());
+                let data = std::fs::read(&path).unwrap_or_default();
+                let t0 = std::time::Instant::now();
+                let f = match ppp_verif::fuzzapi::target_of(prop) {
+                    Some("fz_tape") => ppp_verif::fuzzapi::judge_tape(prop, &data),
+                    Some("fz_pair") => ppp_verif::fuzzapi::judge_pair(prop, &data),
+                    _ => ppp_verif::fuzzapi::judge_bytes(prop, &data),
+                };
+                println!("fuzz input {} ({} bytes): {} in {:?}", path, data.len(), if f.is_some() { "FINDING" } else { "no finding" }, t0.elapsed());
+                exit(if f.is_some() { 1 } else { 0 });
+            }
             "--replay-tape" => {
                 i += 1;
                 replay_tape = Some(args.get(i).cloned().unwrap_or_else(|| usage()));
